@@ -166,3 +166,14 @@ mutant("c13-get-coefficient", "C13", "R13.1/Polynomial::get_coefficient", (PM, "
 mutant("c13-integrate", "C13", "R13.3/Polynomial::integrate", (PM, "poly_anti.evaluate(upper) - poly_anti.evaluate(lower)", "poly_anti.evaluate(lower) - poly_anti.evaluate(upper)"))
 mutant("c13-from-slice", "C13", "R13.4", (PM, "coefficients: data.iter().rev().copied().collect(),", "coefficients: data.iter().copied().collect(),"))
 benign("c13-horner-refactor", "C13", (PM, "        for val in self.coefficients.iter().rev().skip(1) {\n            acc *= x;\n            acc += *val;", "        for val in self.coefficients.iter().rev().skip(1) {\n            acc = acc * x + *val;"))
+
+# ---- C18
+SP = "src/special/polynomial/mod.rs"
+mutant("c18-legendre-mult", "C18", "R18.1/special::polynomial::legendre", (SP, "polynomial![N::from_u32(2 * i + 1).unwrap(), N::zero()] * &p_1;", "polynomial![N::from_u32(2 * i - 1).unwrap(), N::zero()] * &p_1;"))
+mutant("c18-hermite-mult", "C18", "R18.1/special::polynomial::hermite", (SP, "(&h_0 * N::from_u32(2 * i).unwrap());", "(&h_0 * N::from_u32(2 * i + 2).unwrap());"))
+mutant("c18-laguerre-sign", "C18", "R18.1/special::polynomial::laguerre", (SP, "if k % 2 == 0 { N::one() } else { -N::one() }", "if k % 2 == 1 { N::one() } else { -N::one() }"))
+mutant("c18-choose", "C18", "R18.1/special::polynomial::laguerre", (SP, "    for i in n - k + 1..=n {\n        acc *= N::from_u32(i).unwrap();", "    for i in n - k + 2..=n {\n        acc *= N::from_u32(i).unwrap();"))
+mutant("c18-cheb2-iter", "C18", "R18.", (SP, "    for _ in 1..n {\n        let next = &double * &t_1 - &t_0;\n        t_0 = t_1;\n        t_1 = next;\n    }\n    Ok(t_1)\n}\n\n/// Get the nth chebyshev polynomial of the second kind", "    for _ in 2..n {\n        let next = &double * &t_1 - &t_0;\n        t_0 = t_1;\n        t_1 = next;\n    }\n    Ok(t_1)\n}\n\n/// Get the nth chebyshev polynomial of the second kind"))
+mutant("c18-cheb-fft", "C18", "R18.4/special::polynomial::chebyshev", (SP, "        let next = &double * &t_1 - &t_0;\n        t_0 = t_1;\n        t_1 = next;\n    }\n    Ok(t_1)\n}\n\n/// Get the nth chebyshev polynomial of the second kind", "        let next = &double * &t_1 - &t_0;\n        t_0 = t_1;\n        t_1 = next;\n    }\n    if n % 2 == 0 && n >= 4 {\n        let half = chebyshev::<N>(n / 2, tol)?;\n        return Ok(&half * &half * N::from_u8(2).unwrap() - polynomial![N::one()]);\n    }\n    Ok(t_1)\n}\n\n/// Get the nth chebyshev polynomial of the second kind"))
+benign("c18-tolerance-kept-by-lhs", "C18", (SP, "        let mut p_next = polynomial![N::from_u32(2 * i + 1).unwrap(), N::zero()] * &p_1;\n        p_next.set_tolerance(tol)?;", "        let mut p_next = &p_1 * polynomial![N::from_u32(2 * i + 1).unwrap(), N::zero()];"))
+benign("c18-legendre-refactor", "C18", (SP, "        p_next -= &p_0 * N::from_u32(i).unwrap();\n        p_next /= N::from_u32(i + 1).unwrap();", "        p_next = (p_next - &p_0 * N::from_u32(i).unwrap()) / N::from_u32(i + 1).unwrap();"))
